@@ -39,4 +39,12 @@ def obligations(tier):
            dict(name="sock_write_ndebug", harness=W, entry="harness_write_wm", unwind=10, ndebug=True, timeout=300, mem_gb=4, desc="same, NDEBUG build"),
            dict(name="sock_read_hugewm", harness=W, entry="harness_read_wm", unwind=10, defines=["C18_HUGE_WM"], timeout=300, mem_gb=4,
                 desc="as sock_read with the high read mark unconstrained (>= 2^63 allowed): fails without fixes/C18-readcb-high-wm-overflow.diff")]
+    P = "C18_pair.c"
+    PU = ["vp_sink_run_callbacks:3"]   # evbuffer callback -> unsuspend -> be_pair_enable -> transfer -> evbuffer callback ...: depth 2 is the real maximum (asserted)
+    obs += [dict(name="pair_transfer", harness=P, entry="harness_pair_transfer", unwind=10, unwindset=PU, timeout=600, mem_gb=4,
+                 desc="be_pair_transfer(src,dst,ignore_wm) from arbitrary lengths/marks: moves exactly min(pending, room below the partner's high read mark); deferred read/write callbacks scheduled iff the low marks say so")]
+    ops = ["write", "enable_read", "drain", "unsuspend_enable_write", "setwatermark"]
+    for i, nm in enumerate(ops):
+        obs.append(dict(name="pair_api_" + nm, harness=P, entry="harness_pair_api", defines=["C18_OP=%d" % i], unwind=10, unwindset=PU, timeout=600, mem_gb=4,
+                        desc="pair, one API operation (%s) from an arbitrary consistent state: partner input never passes its high mark, nothing deliverable left behind, byte count conserved" % nm))
     return obs
